@@ -54,8 +54,39 @@ def _key(e):
     return repr(e)
 
 
+_MANT = {"float": 24, "double": 53, "x86_fp80": 64, "fp128": 113}
+
+
+def _lt_trunc(n):
+    """n == (x < trunc(x)) for a floating x, trunc through fptosi / sitofp: returns x"""
+    if not (isinstance(n, tuple) and n[0] == "fop" and n[1] == "fcmp"):
+        return None
+    pred, a, b = n[2], n[4], n[5]
+    for p, x, t in ((pred, a, b), (_SWAP.get(pred, pred), b, a)):
+        if p == "olt" and t[0] == "cast" and t[1] == "sitofp" and t[4][0] == "cast" and t[4][1] == "fptosi" and t[4][4] == x:
+            return x
+    return None
+
+
+def _lt_zero(n):
+    """n == (x < 0.0): returns x"""
+    if not (isinstance(n, tuple) and n[0] == "fop" and n[1] == "fcmp"):
+        return None
+    pred, a, b = n[2], n[4], n[5]
+    for p, x, z in ((pred, a, b), (_SWAP.get(pred, pred), b, a)):
+        if p == "olt" and z[0] == "k" and re.match(r"^(-?0(\.0+)?(e[+-]?0+)?|0x[KLMH]?0+)$", str(z[2])):
+            return x
+    return None
+
+
 def mk_bin(op, ty, a, b):
     bits = _bits(ty)
+    if op == "and" and ty == "i1":
+        # truncation moves toward zero: x < trunc(x) can only hold for a negative x, so  (x < trunc x) and (x < 0)  is  x < trunc x
+        for p, q in ((a, b), (b, a)):
+            x = _lt_trunc(p)
+            if x is not None and _lt_zero(q) == x:
+                return p
     if op == "sub" and a[0] == "pint" and b[0] == "pint" and a[1] == b[1] and a[3] == b[3] == ty:
         return mk_bin("sub", ty, a[2], b[2])       # (P + x) - (P + y) == x - y
     if bits and is_c(a) and is_c(b):
@@ -411,6 +442,15 @@ def mk_icmp(pred, ty, a, b):
 
 def mk_cast(op, ty, a, ty2):
     b1, b2 = _bits(ty), _bits(ty2)
+    if op == "fptosi" and b2 and ty in _MANT and b2 <= _MANT[ty] and isinstance(a, tuple):
+        # integers of at most mantissa width are exact in the floating type: converting back is the identity, and the
+        # difference of such an integer and a boolean is exact too (wrap of T - 1 at the most negative T is outside every
+        # conversion's precondition: the floating original is poison there)
+        if a[0] == "cast" and a[1] == "sitofp" and a[2] == ty2 and a[3] == ty:
+            return a[4]
+        if a[0] == "fop" and a[1] == "fsub" and a[2] == ty and a[3][0] == "cast" and a[3][1] == "sitofp" and a[3][2] == ty2 \
+                and a[4][0] == "cast" and a[4][1] == "uitofp" and a[4][2] == "i1":
+            return mk_bin("sub", ty2, a[3][4], mk_cast("zext", "i1", a[4][4], ty2))
     if op == "trunc" and a[0] == "pint" and a[3] == ty:
         return ("pint", a[1], mk_cast("trunc", ty, a[2], ty2), ty2)
     if b1 and b2 and is_c(a):
@@ -529,6 +569,12 @@ def mk_ite(c, x, y):
         return ("ite", c, x, y)
     if c[0] == "ite" and c[2][0] == "c" and c[3][0] == "c":
         pass
+    if c[0] == "ite" and c[3] == C(1, 0):
+        # logical and of (x < trunc x) and (x < 0), in either order: the first implies the second
+        for p_, q_ in ((c[1], c[2]), (c[2], c[1])):
+            xx = _lt_trunc(p_)
+            if xx is not None and _lt_zero(q_) == xx:
+                return mk_ite(p_, x, y)
     if c[0] == "ite":  # select c1, true, c2 (logical or) / select c1, c2, false (logical and)
         c1, t, f = c[1], c[2], c[3]
         if t == C(1, 1):
@@ -589,6 +635,12 @@ def _domain_decides(c):
 def mk_ite0(c, x, y, _ctx=True):
     if x == y:
         return x
+    if isinstance(x, tuple) and x[0] == "ite" and x[3] == y:
+        # nested form of the same conjunction:  if (x < 0) { if (x < trunc x) X } else Y  ==  if (x < trunc x) X else Y
+        for p_, q_ in ((c, x[1]), (x[1], c)):
+            xx = _lt_trunc(p_)
+            if xx is not None and _lt_zero(q_) == xx:
+                return mk_ite0(p_, x[2], y, _ctx)
     if _ctx and c[0] in ("icmp", "icmpx", "op") and _DOMAINS:
         d_ = _domain_decides(c)
         if d_ is not None:
